@@ -290,6 +290,7 @@ const (
 	ReasonTooLong       = "too-long"
 	ReasonValueAsPath   = "value-placeholder-where-a-path-is-required"
 	ReasonPathAsValue   = "path-where-a-value-placeholder-is-required"
+	ReasonBoolOperand   = "boolean-function-or-condition-used-as-operand"
 )
 
 func serr(reason, format string, a ...interface{}) *SyntaxError {
@@ -583,7 +584,7 @@ func (p *parser) parseComparisonTail(op Expr) (Expr, *SyntaxError) {
 			return nil, serr(ReasonChainedCmp, "chained comparison at %d", p.peek().pos)
 		}
 		if isBoolFunc(op) || isBoolFunc(r) {
-			return nil, serr(ReasonBadFunction, "boolean function used as operand")
+			return nil, serr(ReasonBoolOperand, "boolean function used as operand")
 		}
 		return Cmp{nt.text, op, r}, nil
 	case isKw(nt, "BETWEEN"):
@@ -601,7 +602,7 @@ func (p *parser) parseComparisonTail(op Expr) (Expr, *SyntaxError) {
 			return nil, err
 		}
 		if isBoolFunc(op) || isBoolFunc(lo) || isBoolFunc(hi) {
-			return nil, serr(ReasonBadFunction, "boolean function used as operand")
+			return nil, serr(ReasonBoolOperand, "boolean function used as operand")
 		}
 		return Between{op, lo, hi}, nil
 	case isKw(nt, "IN"):
@@ -617,7 +618,7 @@ func (p *parser) parseComparisonTail(op Expr) (Expr, *SyntaxError) {
 				return nil, err
 			}
 			if isBoolFunc(e) {
-				return nil, serr(ReasonBadFunction, "boolean function used as operand")
+				return nil, serr(ReasonBoolOperand, "boolean function used as operand")
 			}
 			list = append(list, e)
 			if p.peek().kind == tComma {
@@ -634,7 +635,7 @@ func (p *parser) parseComparisonTail(op Expr) (Expr, *SyntaxError) {
 		}
 		p.next()
 		if isBoolFunc(op) {
-			return nil, serr(ReasonBadFunction, "boolean function used as operand")
+			return nil, serr(ReasonBoolOperand, "boolean function used as operand")
 		}
 		return In{op, list}, nil
 	}
@@ -706,6 +707,9 @@ func (p *parser) parseFunc(cond bool) (Expr, *SyntaxError) {
 				return nil, err
 			}
 			args = append(args, a)
+			if nt := p.peek(); cond && (nt.kind == tOp || isKw(nt, "BETWEEN") || isKw(nt, "IN") || isKw(nt, "AND") || isKw(nt, "OR")) {
+				return nil, serr(ReasonBoolOperand, "condition used as function argument at %d", nt.pos)
+			}
 			if p.peek().kind == tComma {
 				p.next()
 				continue
@@ -725,7 +729,7 @@ func (p *parser) parseFunc(cond bool) (Expr, *SyntaxError) {
 	}
 	for _, a := range args {
 		if isBoolFunc(a) {
-			return nil, serr(ReasonBadFunction, "boolean function used as argument")
+			return nil, serr(ReasonBoolOperand, "boolean function used as argument")
 		}
 	}
 	return Func{name.text, args}, nil
